@@ -70,6 +70,7 @@ type SnapOpts struct {
 	OnlyVersions map[string]bool // if set, restrict per-version reads to these uuids
 	SkipRepoInfo bool
 	Label        LabelSnap // optional extra reads for labelmap instances (nil = default catalogue)
+	BranchHeads  bool      // also read through "<root>:<branch>" addressing (only where no version is created between the snapshots compared)
 }
 
 type LabelSnap interface{}
@@ -161,6 +162,46 @@ func TakeSnapshot(w *drv.World, o SnapOpts) (*Snapshot, error) {
 			}
 		}
 	}
+	if o.BranchHeads {
+		for _, rk := range repoKeys {
+			r := repos[rk]
+			if r == nil {
+				continue
+			}
+			seen := map[string]bool{}
+			var bnames []string
+			for _, n := range r.DAG.Nodes {
+				b := n.Branch
+				if b == "" {
+					b = "master"
+				}
+				if !seen[b] && !strings.ContainsAny(b, " /:?#%") {
+					seen[b] = true
+					bnames = append(bnames, b)
+				}
+			}
+			sort.Strings(bnames)
+			var kvs []string
+			for name, rawInst := range r.DataInstances {
+				var b struct{ Base struct{ TypeName string } }
+				json.Unmarshal(rawInst, &b)
+				if b.Base.TypeName == "keyvalue" {
+					kvs = append(kvs, name)
+				}
+			}
+			sort.Strings(kvs)
+			for _, b := range bnames {
+				at := "/api/node/" + r.Root + ":" + b
+				addReq(drv.GET(at + "/note"))
+				addReq(drv.GET(at + "/log"))
+				addReq(drv.GET(at + "/status"))
+				for _, name := range kvs {
+					addReq(drv.GET(at + "/" + name + "/keys"))
+					addReq(drv.GET(at + "/" + name + "/key/whoami"))
+				}
+			}
+		}
+	}
 	resps, err := w.Seq(reqs)
 	if err != nil {
 		return nil, err
@@ -235,6 +276,9 @@ func classifyKey(k string) string {
 	}
 	// "GET /api/node/<uuid>/<inst>/<endpoint>..." -> inst-type independent endpoint name
 	parts := strings.Split(strings.Fields(k + " x")[1], "/")
+	if len(parts) >= 4 && strings.Contains(parts[3], ":") {
+		return "what <root>:<branch> resolves to"
+	}
 	if len(parts) >= 6 {
 		ep := parts[5]
 		if i := strings.IndexAny(ep, "?"); i >= 0 {
